@@ -61,6 +61,9 @@ func UnionModel(a, b gen.Model) gen.Model {
 	return restrict(u)
 }
 
+// Families: the special-purpose list families whose ordered pairs are explored besides the small-list matrix.
+var Families = []string{"collisions", "near-ids", "edge-types", "empty-targets", "wide", "wide-edges"}
+
 func Lists(thorough bool, variant string) []gen.ListSpec {
 	var out []gen.ListSpec
 	abc := []string{"a", "b", "c"}
@@ -145,6 +148,40 @@ func Lists(thorough bool, variant string) []gen.ListSpec {
 			chain = append(chain, gen.EdgeSpec{From: leaves[i], Type: sbom.Edge_dependsOn, To: []string{leaves[i+1]}})
 		}
 		out = append(out, gen.ListSpec{Nodes: leaves, Edges: chain, Roots: []string{"l00"}})
+	case "wide-edges":
+		// edge objects with 17, 33 and 65 destinations (either side of 16, 32, 64), two of them per list, and small lists
+		// that bring one destination for either source: one the large edge already has, one of the other large edge, new
+		// ones that sort before, among and after the existing ones. Every node is present in every list.
+		var nodes []string
+		F := func(n int) []string {
+			var l []string
+			for i := 0; i < n; i++ {
+				l = append(l, fmt.Sprintf("f%02d", i))
+			}
+			return l
+		}
+		G := func(n int) []string {
+			var l []string
+			for i := 0; i < n; i++ {
+				l = append(l, fmt.Sprintf("g%02d", i))
+			}
+			return l
+		}
+		extra := []string{"a0", "f05x", "zz"}
+		nodes = append(append(append([]string{"p1", "p2"}, F(65)...), G(65)...), extra...)
+		for _, n := range []int{17, 33, 65} {
+			out = append(out,
+				gen.ListSpec{Nodes: nodes, Edges: []gen.EdgeSpec{{From: "p1", Type: sbom.Edge_contains, To: F(n)}, {From: "p2", Type: sbom.Edge_contains, To: G(n)}}, Roots: []string{"p1"}},
+				gen.ListSpec{Nodes: nodes, Edges: []gen.EdgeSpec{{From: "p2", Type: sbom.Edge_contains, To: G(n)[1:]}, {From: "p1", Type: sbom.Edge_contains, To: F(n)[1:]}}, Roots: []string{"p2"}},
+			)
+		}
+		for _, t := range append([]string{"f00", "g00", "f16", "g40"}, extra...) {
+			out = append(out,
+				gen.ListSpec{Nodes: nodes, Edges: []gen.EdgeSpec{{From: "p1", Type: sbom.Edge_contains, To: []string{t}}}, Roots: []string{"p1"}},
+				gen.ListSpec{Nodes: nodes, Edges: []gen.EdgeSpec{{From: "p2", Type: sbom.Edge_contains, To: []string{t}}}},
+				gen.ListSpec{Nodes: nodes, Edges: []gen.EdgeSpec{{From: "p1", Type: sbom.Edge_contains, To: []string{t}}, {From: "p2", Type: sbom.Edge_contains, To: []string{t}}}, Roots: []string{"p1", "p2"}},
+			)
+		}
 	case "triples":
 		ab := []string{"a", "b"}
 		gen.SmallLists(ab, ab, t1, ab, 2, 1, ab, func(s gen.ListSpec) { out = append(out, s) })
@@ -173,7 +210,7 @@ func Run(c *engine.Ctx) {
 		}
 	}
 
-	for _, fam := range []string{"collisions", "near-ids", "edge-types", "empty-targets", "wide"} {
+	for _, fam := range Families {
 		F := Lists(c.Thorough(), fam)
 		c.Group(fam)
 		c.Bound(fam, fmt.Sprintf("all %d x %d ordered pairs of the %s family", len(F), len(F), fam))
